@@ -126,7 +126,8 @@ def urivalue(uri):
 
          ``url("\"")`` => ``"``
     """
-    uri = uri[uri.find('(') + 1 : -1].strip()
+    # CSS white space only, e.g. U+00A0 is part of an unquoted URL
+    uri = uri[uri.find('(') + 1 : -1].strip(' \t\r\n\f')
     if uri and (uri[0] in '\'"') and (uri[0] == uri[-1]):
         return stringvalue(uri)
     else:
